@@ -31,10 +31,17 @@ func (node *tagIfchangedNode) Execute(ctx *ExecutionContext, writer TemplateWrit
 		}
 
 		bufBytes := buf.Bytes()
-		if !bytes.Equal(state.lastContent, bufBytes) {
-			// Rendered content changed, output it
+		if state.lastContent == nil || !bytes.Equal(state.lastContent, bufBytes) {
+			// Rendered content changed (or is the first one), output it
 			writer.Write(bufBytes)
 			state.lastContent = bufBytes
+		} else if node.elseWrapper != nil {
+			// the same content as the last time: the else block, as in the
+			// form with watched values
+			err := node.elseWrapper.Execute(ctx, writer)
+			if err != nil {
+				return err
+			}
 		}
 	} else {
 		nowValues := make([]*Value, 0, len(node.watchedExpr))
